@@ -105,6 +105,8 @@ func (oe *outEval) compileBufPaths(bs *bufSpec, L *Lang, entryEmpty bool) (*rela
 				return nil, err
 			}
 			d = dd
+		} else if oe.Markers {
+			d = relang.Literal(L.A, string(markerRune(t.Key())))
 		} else {
 			d = L.All()
 		}
@@ -368,6 +370,9 @@ func (pe *bufPathEval) cond(v ssa.Value, st *bpState, depth int) (t, f refine, k
 				}
 			}
 		}
+	}
+	if pe.oe.Markers {
+		return nil, nil, false, false // placeholders stand for the terms: their conditions are not evaluated here
 	}
 	// anything the guard summariser understands, as conditions on the terms
 	f2 := pe.oe.s.ValueForm(v, pe.bs.fr.env)
